@@ -3,6 +3,7 @@ package sim
 import (
 	"context"
 	"fmt"
+	"runtime"
 	"time"
 
 	"github.com/prometheus/client_golang/prometheus"
@@ -21,6 +22,7 @@ func (m *metrics) SetIsLeader(v float64, _ prometheus.Labels) {
 	if s.lean {
 		return
 	}
+	defer s.yield()
 	s.mu.Lock()
 	defer s.mu.Unlock()
 	o.gauge, o.gaugeSet = v, true
@@ -46,8 +48,9 @@ func (m *metrics) rec(kind string, v float64, from, to, label string) {
 		return
 	}
 	s.mu.Lock()
-	defer s.mu.Unlock()
 	s.tr.Mets = append(s.tr.Mets, &MetRec{Seq: s.nextSeq(), T: s.now(), Obj: o.idx, Inst: o.in.idx, Kind: kind, Value: v, From: from, To: to, Label: label})
+	s.mu.Unlock()
+	s.yield()
 }
 
 func (m *metrics) SetConnectionStatus(v float64, _ prometheus.Labels) {
@@ -102,7 +105,24 @@ func (l *logger) log(level, msg string, fields []zap.Field) {
 	r.Seq = s.nextSeq()
 	r.T = s.now()
 	s.tr.Logs = append(s.tr.Logs, r)
+	var fired *LogRule
+	if len(s.plan.LogRules) > 0 && !s.tearing.Load() {
+		n := o.in.logCount[msg]
+		o.in.logCount[msg] = n + 1
+		for i := range s.plan.LogRules {
+			if lr := &s.plan.LogRules[i]; lr.Inst == o.in.idx && lr.Msg == msg && lr.N == n {
+				fired = lr
+			}
+		}
+	}
 	s.mu.Unlock()
+	if fired != nil {
+		s.fire(fired.Action, 0)
+		for i := 0; i < 4; i++ {
+			runtime.Gosched()
+		}
+	}
+	s.yield()
 }
 
 func (l *logger) Debug(msg string, f ...zap.Field) { l.log("debug", msg, f) }
@@ -164,5 +184,19 @@ func (h *health) block(ctx context.Context, script int) {
 		case <-t.C:
 		case <-s.teardownCh:
 		}
+	}
+}
+
+// yield: see Plan.Yields.
+func (s *Sim) yield() {
+	if len(s.plan.Yields) == 0 || s.lean {
+		return
+	}
+	s.mu.Lock()
+	n := int(s.plan.Yields[s.yieldIdx%len(s.plan.Yields)])
+	s.yieldIdx++
+	s.mu.Unlock()
+	for i := 0; i < n; i++ {
+		runtime.Gosched()
 	}
 }
